@@ -10,10 +10,12 @@ Definition st_code (s : status) : nat := match s with OK => 0 | FAILURE => 1 | E
 Definition core_oracle (k : nat) (_ : list (option bool)) : option (list bool) := Some (repeat false k).
 Definition mk_dec (_ : nat) (_ : bool) : bool := false.
 
-Record rs_obs := { ro_status : nat; ro_complete : bool; ro_tab : list (option bool) }.
+Record rs_obs := { ro_status : nat; ro_complete : bool; ro_tab : list (option bool);
+                   ro_state : rs bool (* whole session state: counters, flag and availability are compared with the C's after every call *) }.
 Definition observe_rs (s : rs bool) (st : status) : rs_obs :=
   {| ro_status := st_code st; ro_complete := rs_is_complete s;
-     ro_tab := match rs_source_tab s with Some t => t | None => repeat None (rk s) end |}.
+     ro_tab := match rs_source_tab s with Some t => t | None => repeat None (rk s) end;
+     ro_state := s |}.
 
 Fixpoint rs_steps (cb : bool) (s : rs bool) (esis : list nat) : rs bool * list rs_obs :=
   match esis with
